@@ -436,6 +436,12 @@ func stateString(cm *font.CMap) string {
 
 // cmapOracle: looking up the authored codes in the rendered program returns the authored text.
 func cmapOracle(c *hx.Ctx, prog []byte, width int, es []entry, pname string, ops bool) {
+	cmapOracleD(c, prog, width, es, pname, pname, ops)
+}
+
+// cmapOracleD: pname is the oracle key's policy class, desc the full description of how the
+// program was written (for the failure detail).
+func cmapOracleD(c *hx.Ctx, prog []byte, width int, es []entry, pname, desc string, ops bool) {
 	var data []byte
 	var want strings.Builder
 	for _, e := range es {
@@ -458,10 +464,10 @@ func cmapOracle(c *hx.Ctx, prog []byte, width int, es []entry, pname string, ops
 		for _, e := range es {
 			g := cm.LookupString(codeBytes(e.code, width))
 			if g != string(e.text) {
-				return fmt.Sprintf("policy %s, %d-byte codes: code %X is specified as %s but decodes to %s", pname, width, e.code, runesC(e.text), scalarsSep(g, ","))
+				return fmt.Sprintf("policy %s, %d-byte codes: code %X is specified as %s but decodes to %s", desc, width, e.code, runesC(e.text), scalarsSep(g, ","))
 			}
 		}
-		return fmt.Sprintf("policy %s: every code decodes alone but the %d-code string decodes to %q, want %q", pname, len(es), firstNs(got, 12), firstNs(want.String(), 12))
+		return fmt.Sprintf("policy %s: every code decodes alone but the %d-code string decodes to %q, want %q", desc, len(es), firstNs(got, 12), firstNs(want.String(), 12))
 	})
 	checkOutput(c, "LookupString", got, k, false)
 	if ops {
